@@ -1,5 +1,6 @@
 """B-index: accelerated lookup tables (DESIGN.md 6 C17 / C01).
 """
+import re
 from lib import *
 from batches import core
 
@@ -33,6 +34,21 @@ INDEX_GHOST = '''
         &&& self.v_sizes().len == self.v_unit_count() * self.v_section_count() * 4
     }
 '''
+
+def offset_usize(it):
+    """R-OFFSET for the `<R, Offset> ... where R: Reader<Offset = Offset>, Offset: ReaderOffset` shape (same rule as
+    units.py): the impl is specialised to Offset = usize; the module alias `type Offset = usize;` keeps the body verbatim."""
+    it.custom_re('R-OFFSET', r'impl<R, Offset> (\w+)<R, Offset>', r'impl<R> \1<R, usize>')
+    it.custom_re('R-OFFSET', r'R: Reader<Offset = Offset>,\s*Offset: ReaderOffset,', 'R: Reader<Offset = usize>,')
+    return it
+
+
+def ctorfn(it, ctor, pty, rty):
+    """R-CTORFN (same rule as units.py): a tuple-struct constructor used as a function value (`.map(Ctor)`) is eta-expanded
+    to a closure whose (verified) ensures states what the constructor does; Verus has no function values for constructors."""
+    it.custom('R-CTORFN', f'.map({ctor})', f'.map(|verif_v: {pty}| -> (verif_r: {rty}) ensures verif_r.0 == verif_v {{ {ctor}(verif_v) }})', count=99)
+    return it
+
 
 ITERATOR_IMPL = '''
 pub trait IteratorImpl {
@@ -193,6 +209,201 @@ use vstd::std_specs::iter::IteratorSpec;''')
     sk.add('read::index', nx)
 
 
+ARANGES_GHOST = '''
+impl<R: Reader<Offset = usize>> DebugAranges<R> {
+    pub closed spec fn v_section(&self) -> RView { self.section.rv() }
+}
+
+impl<R: Reader<Offset = usize>> ArangeHeaderIter<R> {
+    pub closed spec fn v_input(&self) -> RView { self.input.rv() }
+    pub closed spec fn v_offset(&self) -> nat { self.offset.0 as nat }
+    /// `offset` is the section offset of the next header and cannot overflow while the rest of the section is walked
+    pub open spec fn wf(&self) -> bool { self.v_offset() <= self.v_input().start && self.v_offset() + self.v_input().len <= usize::MAX }
+    /// position of the section start in the underlying buffer (constant over the iteration)
+    pub open spec fn base(&self) -> int { self.v_input().start - self.v_offset() }
+}
+
+impl<R: Reader<Offset = usize>> ArangeHeader<R, usize> {
+    pub closed spec fn v_offset(&self) -> nat { self.offset.0 as nat }
+    pub closed spec fn v_encoding(&self) -> Encoding { self.encoding }
+    pub closed spec fn v_length(&self) -> nat { self.length as nat }
+    pub closed spec fn v_debug_info_offset(&self) -> nat { self.debug_info_offset.0 as nat }
+    pub closed spec fn v_entries(&self) -> RView { self.entries.rv() }
+    pub open spec fn wf(&self) -> bool { valid_address_size(self.v_encoding().address_size) }
+}
+
+impl<R: Reader<Offset = usize>> ArangeEntryIter<R> {
+    pub closed spec fn v_input(&self) -> RView { self.input.rv() }
+    pub closed spec fn v_encoding(&self) -> Encoding { self.encoding }
+    pub open spec fn wf(&self) -> bool { valid_address_size(self.v_encoding().address_size) }
+}
+
+impl ArangeEntry {
+    pub closed spec fn v_begin(&self) -> u64 { self.range.begin }
+    pub closed spec fn v_end(&self) -> u64 { self.range.end }
+    pub closed spec fn v_length(&self) -> u64 { self.length }
+}
+'''
+
+ARANGES_SPEC = '''
+/// DWARF 5 6.1.2: the tuples of a set, `a` = address size.  Byte offset, from the read position of `b`, of the first
+/// tuple that is not (0, 0), or of the point where less than one tuple is left (gimli reads through early
+/// terminators: "in practice it can occur before the end")
+pub open spec fn arange_skip(b: RView, a: nat) -> nat
+    decreases b.len
+{
+    if a == 0 || b.len < 2 * a { 0 }
+    else if b.u(0, a as int) == 0 && b.u(a as int, a as int) == 0 {
+        2 * a + arange_skip(RView { root: b.root, start: b.start + 2 * a, len: (b.len - 2 * a) as nat, be: b.be }, a)
+    } else { 0 }
+}
+
+pub proof fn lemma_arange_skip_bound(b: RView, a: nat)
+    ensures arange_skip(b, a) <= b.len
+    decreases b.len
+{
+    if a != 0 && b.len >= 2 * a && b.u(0, a as int) == 0 && b.u(a as int, a as int) == 0 {
+        lemma_arange_skip_bound(RView { root: b.root, start: b.start + 2 * a, len: (b.len - 2 * a) as nat, be: b.be }, a);
+    }
+}
+
+/// header length of a set: unit_length + version + debug_info_offset + address_size + segment_selector_size
+pub open spec fn arange_header_len(format: Format) -> nat {
+    (match format { Format::Dwarf32 => 4nat, Format::Dwarf64 => 12nat }) + 2 + word_size(format) + 1 + 1
+}
+
+/// "The first tuple following the header in each set begins at an offset that is a multiple of the size of a single tuple"
+pub open spec fn arange_first_tuple(format: Format, address_size: u8) -> nat {
+    let h = arange_header_len(format);
+    let t = 2 * address_size as nat;
+    if h % t == 0 { h } else { (h + t - h % t) as nat }
+}
+
+pub proof fn lemma_arange_first_tuple_aligned(format: Format, address_size: u8)
+    requires valid_address_size(address_size)
+    ensures
+        arange_first_tuple(format, address_size) % (2 * address_size as nat) == 0, // [C17:aranges-padding-aligned]
+        arange_header_len(format) <= arange_first_tuple(format, address_size) < arange_header_len(format) + 2 * address_size, // [C17:aranges-padding-aligned]
+{
+}
+'''
+
+
+def hdr_clauses(B0, h, off):
+    """the clauses describing an aranges set header `h` that starts at the read position of view `B0` (DWARF 5 6.1.2, 7.21)"""
+    LET = (f'let b0 = {B0}; let w = b0.u(0, 4); let fmt = if w == 0xffff_ffff {{ Format::Dwarf64 }} else {{ Format::Dwarf32 }}; '
+           f'let ils = if w == 0xffff_ffff {{ 12int }} else {{ 4int }}; let ws = word_size(fmt) as int; let len = if w == 0xffff_ffff {{ b0.u(4, 8) }} else {{ w }}; ')
+    return LET, [
+        f'[C17:aranges-header-fields] ({{ {LET} {h}.v_encoding().format == fmt && {h}.v_length() == len && (w < 0xffff_fff0 || w == 0xffff_ffff) '
+        f'&& {h}.v_encoding().version == b0.u(ils, 2) && ({h}.v_encoding().version == 2 || {h}.v_encoding().version == 3) '
+        f'&& {h}.v_debug_info_offset() == b0.u(ils + 2, ws) && {h}.v_encoding().address_size == b0.at(ils + 2 + ws) && b0.at(ils + 3 + ws) == 0 && {h}.v_offset() == {off} }})',
+        f'[C01:address-size-validated] {h}.wf()',
+        f'[C17:aranges-header-padding][C10:view] ({{ {LET} let ft = arange_first_tuple(fmt, {h}.v_encoding().address_size); ft <= ils + len && window(b0, {h}.v_entries(), ft, (ils + len - ft) as nat) }})',
+    ], LET
+
+
+def populate_aranges(ctx, sk):
+    ar = Source('read/aranges.rs', ctx)
+    rl = Source('read/rnglists.rs', ctx)
+    sk.mods['read']['uses'] += '\npub use self::rnglists::*;\npub use self::aranges::*;'
+    sk.module('read::rnglists')
+    sk.add('read::rnglists', rl.item(r'^pub struct Range \{').clean())
+    sk.module('read::aranges', '''use crate::common::{DebugArangesOffset, DebugInfoOffset, Encoding, Format};
+use crate::read::{Error, Range, Reader, ReaderAddress, ReaderOffset, Result};
+use crate::read::reader_clone;
+use crate::vspec::*;
+pub type Offset = usize;''')
+    sk.add('read::aranges', ARANGES_SPEC, label='aranges_spec')
+    sk.add('read::aranges', ar.item(r'^pub struct DebugAranges<R>').clean(rejrec=['R']))
+    sk.add('read::aranges', ar.item(r'^pub struct ArangeHeaderIter<').clean(rejrec=['R']))
+    sk.add('read::aranges', ar.item(r'^pub struct ArangeHeader<R, Offset').clean(rejrec=['R', 'Offset']))
+    sk.add('read::aranges', ar.item(r'^pub struct ArangeEntryIter<').clean(rejrec=['R']))
+    sk.add('read::aranges', ar.item(r'^pub struct ArangeEntry \{').clean())
+    sk.add('read::aranges', ARANGES_GHOST, label='aranges_ghost')
+
+    da = ar.item(r'^impl<R: Reader> DebugAranges<R>', label='DebugAranges')
+    da.custom('R-CLONE', 'self.section.clone()', 'reader_clone(&self.section)', count=2)
+    da.clean().own(OWN)
+    sk.add('read::aranges', da)
+
+    da.splice('headers', ret='res', ensures=[
+        '[C17:aranges-iter-offset] res.wf() && res.v_input() == self.v_section() && res.v_offset() == 0'])
+    LETP, HC, _ = hdr_clauses('self.v_section()', 'h', 'offset.0')
+    da.splice('header', ret='res', ensures=[
+        f'[C17:aranges-header-at] res matches Ok(h) ==> offset.0 <= self.v_section().len && ' + ' && '.join('(' + parse_tags(c)[1].replace('let b0 = self.v_section();', 'let b0 = RView { root: self.v_section().root, start: self.v_section().start + offset.0 as nat, len: (self.v_section().len - offset.0) as nat, be: self.v_section().be };') + ')' for c in HC)])
+
+    hi = ar.item(r'^impl<R: Reader> ArangeHeaderIter<R>', label='ArangeHeaderIter').clean().own(OWN)
+    OI, FI = 'old(self).v_input()', 'final(self).v_input()'
+    _, HC, LET = hdr_clauses(OI, 'h', 'old(self).v_offset()')
+    hi.splice('next', ret='res', requires=['[C17:aranges-iter-offset] old(self).wf()'], ensures=[
+        f'[C01:iter-finish] {OI}.len == 0 ==> res matches Ok(None)',
+        f'[C01:iter-err-empties] res is Err ==> {FI}.len == 0',
+        f'[C01:iter-progress] res matches Ok(Some(_)) ==> {FI}.len < {OI}.len',
+        f'[C01:frame] within({OI}, {FI})',
+        '[C17:aranges-iter-offset][C10:view] final(self).wf() && (res is Ok ==> final(self).base() == old(self).base())',
+        f'[C17:aranges-header-consume] res matches Ok(Some(h)) ==> ({{ {LET} adv(b0, {FI}, (ils + len) as nat) }})',
+    ] + [''.join(f'[{t}]' for t in parse_tags(c)[0]) + ' res matches Ok(Some(h)) ==> ' + parse_tags(c)[1] for c in HC], canary=True)
+    sk.add('read::aranges', hi)
+
+    hd = ar.item(r'^impl<R, Offset> ArangeHeader<R, Offset>', label='ArangeHeader')
+    hd.custom('R-CLONE', 'self.entries.clone()', 'reader_clone(&self.entries)')
+    offset_usize(hd)
+    ctorfn(hd, 'DebugInfoOffset', 'usize', 'DebugInfoOffset<usize>')
+    hd.clean().own(OWN)
+    B0, FI = 'old(input).rv()', 'final(input).rv()'
+    _, HC, LET = hdr_clauses(B0, 'h', 'offset.0')
+    hd.splice('parse', ret='res', ensures=[
+        f'[C17:aranges-header-consume] res is Ok ==> ({{ {LET} adv(b0, {FI}, (ils + len) as nat) }})',
+        f'[C01:frame] within({B0}, {FI})',
+    ] + [''.join(f'[{t}]' for t in parse_tags(c)[0]) + ' res matches Ok(h) ==> ' + parse_tags(c)[1] for c in HC])
+    hd.splice('entries', ret='res', ensures=['[C17:aranges-entries] res.v_input() == self.v_entries() && res.v_encoding() == self.v_encoding()'])
+    for acc, gh in [('offset', 'res.0 == self.v_offset()'), ('length', 'res == self.v_length()'), ('encoding', 'res == self.v_encoding()'),
+                    ('debug_info_offset', 'res.0 == self.v_debug_info_offset()')]:
+        hd.splice(acc, ret='res', ensures=[gh])
+    sk.add('read::aranges', hd)
+
+    def tuple_clauses(B0, FI, A):
+        LET = f'let b0 = {B0}; let a = {A} as nat; let off = arange_skip(b0, a); '
+        return [
+            f'[C17:aranges-tuple] res matches Ok(Some(e)) ==> ({{ {LET} b0.len >= off + 2 * a && e.v_begin() == b0.u(off as int, a as int) && e.v_length() == b0.u((off + a) as int, a as int) '
+            f'&& e.v_end() == 0 && !(e.v_begin() == 0 && e.v_length() == 0) && adv(b0, {FI}, off + 2 * a) }})',
+            f'[C17:aranges-end] res matches Ok(None) ==> ({{ {LET} b0.len < off + 2 * a && {FI}.len == 0 }})',
+            '[C01:no-error] res is Ok',
+            f'[C01:frame] within({B0}, {FI})',
+        ]
+    ei = ar.item(r'^impl<R: Reader> ArangeEntryIter<R>', label='ArangeEntryIter').clean().own(OWN)
+    OI, FI = 'old(self).v_input()', 'final(self).v_input()'
+    AS = 'self.v_encoding().address_size'
+    PROTO = [f'[C01:iter-finish] {OI}.len == 0 ==> res matches Ok(None)',
+             f'[C01:iter-err-empties] res is Err ==> {FI}.len == 0',
+             f'[C01:iter-progress] res matches Ok(Some(_)) ==> {FI}.len < {OI}.len',
+             f'[C01:iter-none-final] res matches Ok(None) ==> {FI}.len == 0',
+             'final(self).wf() && final(self).v_encoding() == old(self).v_encoding()']
+    ei.splice('next_raw', ret='res', requires=['[C01:address-size-validated] old(self).wf()'],
+              ensures=PROTO + tuple_clauses(OI, FI, 'old(self).v_encoding().address_size'), canary=True)
+    ei.splice('convert_raw', ret='res', requires=['[C01:address-size-validated] self.wf()'], ensures=[
+        f'[C17:aranges-tombstone] entry.v_begin() >= ones({AS}) - 1 ==> res matches Ok(None)',
+        f'[C17:aranges-range][C01:checked-address] entry.v_begin() < ones({AS}) - 1 ==> (if entry.v_begin() + entry.v_length() <= ones({AS}) {{ '
+        'res matches Ok(Some(e)) && e.v_begin() == entry.v_begin() && e.v_length() == entry.v_length() && e.v_end() == entry.v_begin() + entry.v_length() } else { res is Err })',
+    ], canary=True)
+    A2 = 'old(self).v_encoding().address_size'
+    ei.splice('next', ret='res', requires=['[C01:address-size-validated] old(self).wf()'], ensures=PROTO + [
+        f'[C01:frame] within({OI}, {FI})',
+        f'[C17:aranges-next] res matches Ok(Some(e)) ==> ({{ let a = {A2} as int; let p = {FI}.start - {OI}.start - 2 * a; p >= 0 && e.v_begin() == {OI}.u(p, a) && e.v_length() == {OI}.u(p + a, a) '
+        f'&& !(e.v_begin() == 0 && e.v_length() == 0) && e.v_begin() < ones({A2}) - 1 && e.v_end() == e.v_begin() + e.v_length() && e.v_end() <= ones({A2}) }})',
+    ], loops={0: f'invariant self.wf(), self.v_encoding() == old(self).v_encoding(), within({OI}, self.v_input()), decreases self.v_input().len'}, canary=True)
+    sk.add('read::aranges', ei)
+
+    en = ar.item(r'^impl ArangeEntry \{', label='ArangeEntry').clean().own(OWN)
+    en.splice('parse', ret='res', requires=['[C01:address-size-validated] valid_address_size(encoding.address_size)'],
+              ensures=tuple_clauses('old(input).rv()', 'final(input).rv()', 'encoding.address_size') + [
+                  '[C01:iter-progress] res matches Ok(Some(_)) ==> final(input).rv().len < old(input).rv().len'],
+              decreases='old(input).rv().len', canary=True)
+    for acc, gh in [('address', 'res == self.v_begin()'), ('length', 'res == self.v_length()'), ('range', 'res.begin == self.v_begin() && res.end == self.v_end()')]:
+        en.splice(acc, ret='res', ensures=[gh])
+    sk.add('read::aranges', en)
+
+
 def strengthen_core(sk):
     """verified strengthening of a core item inside this batch: `usize::from_u64` never fails on a 64-bit target
     (the trait-level contract only promises success up to 0xffff_ffff)"""
@@ -205,6 +416,7 @@ def populate(ctx, sk):
     sk.module('vspec_index', 'use crate::vspec::*;')
     sk.add('vspec_index', core.rd('specs/index.rs'), label='vspec_index', owners=['C17'])
     populate_index(ctx, sk)
+    populate_aranges(ctx, sk)
     return sk
 
 
